@@ -3,7 +3,7 @@ from __future__ import annotations
 
 import ast
 
-from .. import astu, flow, types
+from .. import astu, evid, flow, types
 from ..cfg import cfg_of
 from ..model import AnalysisError, Func
 from ..report import key_of
@@ -71,10 +71,13 @@ def r1(R, repo):
   ok = ins is not None and astu.src(ins) == 'axis_name' and astu.src(nm) == 'self._get_partition_name(params)' and astu.src(types.single_def(add.node, 'names')) == 'list(self.names)'
   rets = [n for n in astu.body_walk(add.node) if isinstance(n, ast.Return)]
   ok = ok and len(rets) == 1 and astu.src(rets[0].value) == 'self.replace(names=tuple(names))'
-  R.check(ok, key_of(add, 'pad with None up to index, insert the partition name at index'), add, 'Partitioned.add_axis must pad names with None up to `index`, insert the partition name at `index` and return a copy with tuple(names)')
+  pos_ins = [x for x in astu.func_calls(add) if astu.src(x.func) in ('names.insert', 'names.append', 'names.extend') and x.args and 'axis_name' in astu.src(x)]
+  bad_pos = [x for x in pos_ins if astu.call_tail(x) != 'insert' or astu.src(x.args[0]) != 'index']
+  R.judge(ok or bool(bad_pos), ok, key_of(add, 'pad with None up to index, insert the partition name at index'), add, 'Partitioned.add_axis must pad names with None up to `index`, insert the partition name at `index` and return a copy with tuple(names)')
   src = astu.src(rem.node)
   ok = 'assert names.pop(index) == axis_name' in src and 'self.replace(names=tuple(names))' in src and 'axis_name = self._get_partition_name(params)' in src
-  R.check(ok, key_of(rem, 'pop(index) must be the partition name'), rem, 'Partitioned.remove_axis must pop the name at `index`, assert it is the partition name and return a copy')
+  pops = [x for x in astu.func_calls(rem) if astu.src(x.func) == 'names.pop']
+  R.judge(ok or (len(pops) == 1 and (not pops[0].args or astu.src(pops[0].args[0]) != 'index')), ok, key_of(rem, 'pop(index) must be the partition name'), rem, 'Partitioned.remove_axis must pop the name at `index`, assert it is the partition name and return a copy')
   gp = mod.func('Partitioned._get_partition_name')
   R.check(any(isinstance(n, ast.Raise) for n in astu.body_walk(gp.node)) and 'PARTITION_NAME' in astu.src(gp.node), key_of(gp, 'missing partition name raises'), gp, '_get_partition_name must raise when PARTITION_NAME is not given')
   ns = repo.mod(NS)
@@ -89,18 +92,18 @@ def r1(R, repo):
     R.require(len(st) == 1, '%s: x.sharding assignment not found' % q)
     val = st[0].stmt.value
     ok = isinstance(val, ast.Call) and astu.call_name(val) == field_fn and [astu.src(a) for a in val.args] == ['x.sharding', 'index', 'axis_name']
-    R.check(ok, key_of(f, 'x.sharding = %s(x.sharding, index, axis_name)' % field_fn), f, '%s must rewrite x.sharding with %s(x.sharding, index, axis_name)' % (q, field_fn))
+    R.judge(isinstance(val, ast.Call) and astu.call_name(val) in ('insert_field', 'remove_field') and len(val.args) == 3, ok, key_of(f, 'x.sharding = %s(x.sharding, index, axis_name)' % field_fn), f, '%s must rewrite x.sharding with %s(x.sharding, index, axis_name)' % (q, field_fn))
     guards = [t for t in c.nodes if t.kind == 'if' and c.edge_guarded(st[0], t, 'T') and 'sharding' in astu.src(t.ast)]
     R.require(len(guards) >= 1, '%s: sharding guard not found' % q)
     g = guards[-1].ast
     vals = {v: _abs_guard(repo, f, g, v) for v in ('None', 'empty', 'nonempty')}
-    R.check(vals == {'None': False, 'empty': True, 'nonempty': True}, key_of(f, 'applies to every annotated Variable (sharding is not None), including sharding=()'), (f, guards[-1].stmt),
+    R.check(vals == {'None': False, 'empty': True, 'nonempty': True}, key_of(f, 'applies to every annotated Variable (sharding is not None), including sharding=()'), (f, guards[-1].stmt), evidence=True, msg_fail=
             'the guard `%s` evaluates to %s for sharding None / () / non-empty: a rank-0 Variable annotated with sharding=() must still get the partition name when it is stacked (and lose it when sliced)' % (astu.src(g), vals))
     nm = types.single_def(ns.func(q.split('.')[0]).node, 'axis_name')
   for q in ('add_axis', 'remove_axis'):
     f = ns.func(q)
     unp = [n for n in astu.body_walk(f.node) if isinstance(n, ast.Assign) and isinstance(n.value, ast.Call) and astu.call_name(n.value) == '_get_partition_name_and_metadata']
-    R.check(len(unp) == 1 and [astu.src(e) for e in unp[0].targets[0].elts] == ['axis_name', 'other_meta'], key_of(f, 'name from _get_partition_name_and_metadata'), f, '%s must take the partition name from transform_metadata' % q)
+    R.judge(len(unp) == 1 and isinstance(unp[0].targets[0], ast.Tuple) and len(unp[0].targets[0].elts) == 2, len(unp) == 1 and isinstance(unp[0].targets[0], ast.Tuple) and astu.src(unp[0].targets[0].elts[0]) == 'axis_name', key_of(f, 'name from _get_partition_name_and_metadata'), f, '%s must take the partition name from transform_metadata' % q)
   gn = ns.func('_get_partition_name_and_metadata')
   R.check(any(isinstance(n, ast.Raise) for n in astu.body_walk(gn.node)) and 'return (transform_metadata[PARTITION_NAME], other_meta)' in astu.src(gn.node), key_of(gn, 'missing partition name raises'), gn,
           '_get_partition_name_and_metadata must raise when the partition name is missing and return (name, other metadata)')
@@ -132,14 +135,15 @@ def r2(R, repo):
     R.require(len(call) == 1, '%s: call of %s not found' % (q, call_name))
     rn, an = c.nodes_for(rem[0][1]), c.nodes_for(add[0][1])
     ok = all(call[0] in c.reach([x]) and x not in c.reach(call) for x in rn) and all(x in c.reach(call) for x in an)
-    R.check(ok, key_of(f, 'remove_axis before the mapped call, add_axis after it'), f, '%s must strip the partition name before calling %s and add it back afterwards' % (q, call_name))
+    R.check(ok, key_of(f, 'remove_axis before the mapped call, add_axis after it'), f, evidence=True, msg_fail= '%s must strip the partition name before calling %s and add it back afterwards' % (q, call_name))
     lr, la = rem[0][0], add[0][0]
     okz = lr is not None and la is not None and 'variable_in_axes' in astu.src(lr.iter) and 'variable_out_axes' in astu.src(la.iter) and 'variable_out_axes' not in astu.src(lr.iter) and 'variable_in_axes' not in astu.src(la.iter)
-    R.check(okz, key_of(f, 'remove uses the in-axes, add uses the out-axes'), f, 'remove_axis must be zipped with variable_in_axes and add_axis with variable_out_axes (got `%s` / `%s`)' % (astu.short(lr.iter) if lr else None, astu.short(la.iter) if la else None))
+    axn = lambda lp_: {n_ for n_ in ('variable_in_axes', 'variable_out_axes') if lp_ is not None and n_ in astu.src(lp_.iter)}
+    R.judge(len(axn(lr)) == 1 and len(axn(la)) == 1, okz, key_of(f, 'remove uses the in-axes, add uses the out-axes'), f, 'remove_axis must be zipped with variable_in_axes and add_axis with variable_out_axes (got `%s` / `%s`)' % (astu.short(lr.iter) if lr else None, astu.short(la.iter) if la else None))
     for kind, (lp, x) in (('remove', rem[0]), ('add', add[0])):
       tg = [astu.src(e) for e in lp.target.elts]
       okc = [astu.src(a) for a in x.args] == [tg[0], tg[1], 'metadata_params']
-      R.check(okc, key_of(f, '%s_axis(group, its axis, metadata_params)' % kind), (f, x), 'meta.%s_axis must receive the group, the axis zipped with it and metadata_params' % kind)
+      R.judge(len(x.args) == 3 and len(tg) == 2 and sorted(astu.src(a) for a in x.args) == sorted([tg[0], tg[1], 'metadata_params']), okc, key_of(f, '%s_axis(group, its axis, metadata_params)' % kind), (f, x), 'meta.%s_axis must receive the group, the axis zipped with it and metadata_params' % kind)
   ax = mod.func('_split_in_out_axes')
   src = astu.src(ax.node)
   R.check('isinstance(v, Out)' in src and 'isinstance(v, In)' in src, key_of(ax, 'In axes excluded from out, Out axes from in'), ax, '_split_in_out_axes must drop Out axes from the in half and In axes from the out half')
@@ -154,13 +158,13 @@ def r2(R, repo):
     tt = [n for x in astu.func_calls(f) if astu.call_name(x) == 'extract.to_tree' for n in c.nodes_for(x)]
     un = [c.nodes_for(x)[0] for x in ups]
     ok = fns == ['spmd.remove_axis', 'spmd.add_axis'] and all(f_ in c.reach([un[0]]) for f_ in fr) and all(un[1] in c.reach([t]) for t in tt) and un[0] not in c.reach(fr)
-    R.check(ok, key_of(f, 'remove_axis before merging inputs, add_axis after splitting outputs'), f, '%s must apply spmd.remove_axis to the incoming states before from_tree and spmd.add_axis to the outgoing states after to_tree (got %s)' % (q, fns))
+    R.judge(sorted(fns) == ['spmd.add_axis', 'spmd.remove_axis'] or (len(set(fns)) == 1 and fns[0] in ('spmd.add_axis', 'spmd.remove_axis')), ok, key_of(f, 'remove_axis before merging inputs, add_axis after splitting outputs'), f, '%s must apply spmd.remove_axis to the incoming states before from_tree and spmd.add_axis to the outgoing states after to_tree (got %s)' % (q, fns))
     tests = [astu.src(t.ast) for t in c.nodes if t.kind == 'if' and any(c.edge_guarded(u, t, 'T') for u in un)]
     R.check(len(tests) == 2 and len(set(tests)) == 1 and 'PARTITION_NAME in self.transform_metadata' in tests[0], key_of(f, 'both under the same PARTITION_NAME test'), f, 'both metadata updates must be guarded by the same `PARTITION_NAME in transform_metadata` test')
   uf = it.func('_update_variable_sharding_metadata._update_axes_fn')
   calls = [x for x in astu.func_calls(uf) if astu.call_name(x) == 'axis_fn']
   ok = len(calls) == 2 and [astu.src(a) for a in calls[0].args] == ['state', 'node_states.metadata', 'transform_metadata'] and [astu.src(a) for a in calls[1].args] == ['state', 'axis', 'transform_metadata']
-  R.check(ok, key_of(uf, 'axis_fn(state, its own axis, transform_metadata)'), uf, '_update_axes_fn must call axis_fn with each state and the axis declared for that state')
+  R.judge(len(calls) == 2 and all(len(x.args) == 3 for x in calls), ok, key_of(uf, 'axis_fn(state, its own axis, transform_metadata)'), uf, '_update_axes_fn must call axis_fn with each state and the axis declared for that state')
 
 
 @rule('C19.R3', 'K1', 4, 'assigning to a boxed variable re-boxes the value; helpers map only over AxisMetadata leaves')
@@ -174,7 +178,7 @@ def r3(R, repo):
   t = [n for n in c.nodes if n.kind == 'if' and 'self.unbox' in astu.src(n.ast)]
   put = [n for x in astu.func_calls(f) if astu.call_tail(x) == 'put_variable' for n in c.nodes_for(x)]
   ok = len(rb) == 1 and len(t) >= 1 and c.edge_guarded(rb[0], t[0], 'T') and len(put) == 1 and put[0] in c.reach(rb)
-  R.check(ok, key_of(f, 'value re-boxed with meta.replace_boxed before being stored'), f, 'assigning to an unboxed view of a boxed variable must re-box the value (meta.replace_boxed(current, value)) before put_variable')
+  R.judge(len(put) == 1 and (len(rb) == 1 or not evid.calls_deep(repo, f, evid.call_named('replace_boxed'))), ok, key_of(f, 'value re-boxed with meta.replace_boxed before being stored'), f, 'assigning to an unboxed view of a boxed variable must re-box the value (meta.replace_boxed(current, value)) before put_variable')
   me = repo.mod(ME)
   mm = me.func('map_axis_meta')
   R.check('is_leaf=is_axis_metadata' in astu.src(mm.node) and 'isinstance(x, AxisMetadata)' in astu.src(mm.node), key_of(mm, 'maps over AxisMetadata leaves only'), mm, 'map_axis_meta must treat AxisMetadata boxes as leaves and leave everything else untouched')
@@ -198,7 +202,8 @@ def r4(R, repo):
     vals = t.ast.values if isinstance(t.ast, ast.BoolOp) and isinstance(t.ast.op, ast.And) else [t.ast]
     conj |= {astu.src(v) for v in vals}
   ok = '_mesh_assignment_free(rule_mesh_names, result)' in conj and 'result[pos] == _unassigned_axis' in conj and 'rule_model_name in array_dim_names' in conj
-  R.check(ok, key_of(f, 'assign only if the mesh axes are free and the dimension is unassigned'), (f, st[0].stmt),
+  free_called = [x for x in astu.func_calls(f) if astu.call_name(x) == '_mesh_assignment_free']
+  R.judge(ok or (not free_called and not evid.calls_deep(repo, f, evid.call_named('_mesh_assignment_free'))) or ('_mesh_assignment_free(rule_mesh_names, result)' in conj), ok, key_of(f, 'assign only if the mesh axes are free and the dimension is unassigned'), (f, st[0].stmt),
           'result[pos] = rule_mesh_names must be guarded by _mesh_assignment_free(rule_mesh_names, result) and result[pos] == _unassigned_axis (guards found: %s)' % sorted(conj))
   lp = [n for n in c.nodes if n.kind == 'for' and astu.src(n.ast) == 'rules']
   R.check(len(lp) == 1 and st[0] in c.loop_body_nodes(lp[0].stmt), key_of(f, 'rules visited in the given order'), f, 'rules must be applied in the order given (priority)')
@@ -210,12 +215,13 @@ def r4(R, repo):
 
   def flat(d, p):
     return isinstance(d, ast.Call) and astu.call_name(d) == 'set' and isinstance(d.args[0], ast.Call) and astu.call_name(d.args[0]) == 'jax.tree_util.tree_leaves' and astu.src(d.args[0].args[0]) == p
-  R.check(flat(dn, ps[0]) and flat(de, ps[1]), key_of(mf, 'both sides flattened to single mesh axis names'), mf,
+  unflat = lambda d, p_: isinstance(d, ast.Call) and astu.call_name(d) in ('set', 'frozenset') and len(d.args) == 1 and astu.src(d.args[0]) == p_
+  R.judge((flat(dn, ps[0]) or unflat(dn, ps[0])) and (flat(de, ps[1]) or unflat(de, ps[1])), flat(dn, ps[0]) and flat(de, ps[1]), key_of(mf, 'both sides flattened to single mesh axis names'), mf,
           'a rule may name a tuple of mesh axes, so both the new assignment and the existing assignments must be flattened with jax.tree_util.tree_leaves before intersecting (got `%s` / `%s`): otherwise an axis used inside a tuple is not seen as taken' % (astu.short(dn), astu.short(de)))
   cm = cfg_of(mf)
   t = [n for n in cm.nodes if n.kind == 'if' and astu.src(n.ast) in ('existing.intersection(new)', 'new.intersection(existing)', 'existing & new', 'new & existing')]
   rf = [n for n in cm.nodes if isinstance(n.stmt, ast.Return) and astu.is_const(n.stmt.value, False)]
-  R.check(len(t) == 1 and len(rf) == 1 and cm.edge_guarded(rf[0], t[0], 'T'), key_of(mf, 'overlap -> not free'), mf, '_mesh_assignment_free must return False exactly when the flattened sets intersect')
+  R.judge(len(t) == 1 and len(rf) == 1, len(t) == 1 and len(rf) == 1 and cm.edge_guarded(rf[0], t[0], 'T'), key_of(mf, 'overlap -> not free'), mf, '_mesh_assignment_free must return False exactly when the flattened sets intersect')
   lt = mod.func('logical_to_mesh_axes')
   R.check('[None if x is _unassigned_axis else x for x in result]' in astu.src(lt.node) and 'PartitionSpec(*result)' in astu.src(lt.node), key_of(lt, 'unassigned -> None'), lt, 'logical_to_mesh_axes must map the unassigned sentinel to None and build the PartitionSpec from the result')
 
